@@ -189,7 +189,7 @@ def render_cfg(template_path, out_path, consts):
 
 
 def tlc(spec_dir, module, cfg, consts=None, workers=8, timeout=600, edges=True, simulate=None, depth=None,
-        seed=None, extra=(), heap="8g", keep_out=False, dump_trace=True, edge_limit=None, jvm=(), extra_files=()):
+        seed=None, extra=(), heap="8g", keep_out=False, dump_trace=True, edge_limit=None, jvm=(), extra_files=(), compact=False):
     """Run TLC on spec_dir/module.tla with spec_dir/cfg(.in) in a scratch copy.  Lines printed by the
     spec as "EDGE {json}" / "INIT {json}" are collected (the labelled state graph)."""
     work = scratch("tlc")
@@ -242,7 +242,11 @@ def tlc(spec_dir, module, cfg, consts=None, workers=8, timeout=600, edges=True, 
             if line.startswith('"EDGE '):
                 nedges += 1
                 if edges and (edge_limit is None or len(r.edges) < edge_limit):
-                    r.edges.append(json.loads(json.loads(line)[5:]))
+                    e = json.loads(json.loads(line)[5:])
+                    if compact:
+                        # large graphs: keep the two states as interned canonical strings (what Graph keys them by), not as objects
+                        e["f"], e["t"] = sys.intern(key(e["f"])), sys.intern(key(e["t"]))
+                    r.edges.append(e)
             elif line.startswith('"INIT '):
                 if edges:
                     r.inits.append(json.loads(json.loads(line)[5:]))
@@ -319,15 +323,16 @@ class Graph:
         self.edges = []
         seen = set()
         for e in r.edges:
-            f, t = key(e["f"]), key(e["t"])
+            f = e["f"] if isinstance(e["f"], str) else key(e["f"])
+            t = e["t"] if isinstance(e["t"], str) else key(e["t"])
             k = (f, key(e["a"]), t)
             if k in seen:
                 continue
             seen.add(k)
             self.succ[f].append(len(self.edges))
             self.edges.append((f, e["a"], t, e.get("o")))
-        self.inits = sorted({key(i["t"]) for i in r.inits})
-        self.init_obs = {key(i["t"]): i.get("o") for i in r.inits}
+        self.inits = sorted({i["t"] if isinstance(i["t"], str) else key(i["t"]) for i in r.inits})
+        self.init_obs = {(i["t"] if isinstance(i["t"], str) else key(i["t"])): i.get("o") for i in r.inits}
 
     def cover(self, seed=0, max_len=40, max_paths=None, prefer=None, tail=0):
         """Paths (lists of edge indices) from an initial state that together traverse every edge
